@@ -14,8 +14,9 @@ var allKinds = []string{"plain", "setglob", "setfs", "csvhdr", "setmodes", "open
 	"cancel", "rand", "srand5", "midfile", "match", "p_io", "p_func",
 	"gl_plain", "gl_dash", "gl_dashvar", "exit_enderr", "exitbegin", "exit_endcancel", "sys", "pipe",
 	"nr_plain", "sr_first", "sr_only", "sr_time", "av_write", "av_del",
-	"rg_close", "rg_eof", "rg_exit", "rg_err", "rg_cancel", "rg_next", "rg_nextfile", "rg_getline"}
-var allCfgs = []string{"c0", "c1", "c2", "c3", "c4", "c5", "c6", "c7"}
+	"rg_close", "rg_eof", "rg_exit", "rg_err", "rg_cancel", "rg_next", "rg_nextfile", "rg_getline",
+	"fmtc", "dp_ok", "dp_err", "dp_exit", "dp_cancel"}
+var allCfgs = []string{"c0", "c1", "c2", "c3", "c4", "c5", "c6", "c7", "c8", "c9", "c10", "c11"}
 
 // the kinds added after the first 16 (stdin / exit-status / context / range / rand / ARGV+ENVIRON families) are
 // drawn more often than their share
@@ -44,7 +45,7 @@ func chunksOf(out []byte) []map[string]any {
 		}
 		res = append(res, map[string]any{"k": c.K, "v": hx.FromBytes(c.V)})
 		off = no
-		if c.K == "pl" {
+		if c.K == "pl" || c.K == "pf" || c.K == "fc" {
 			nl := bytes.IndexByte(out[off:], '\n')
 			if nl < 0 {
 				if off < len(out) {
@@ -60,7 +61,7 @@ func chunksOf(out []byte) []map[string]any {
 }
 
 // Record drives n random histories (5-12 operations each: runs of random
-// kinds and configurations -- all 38 kinds x 8 configurations, so Execute,
+// kinds and configurations -- all 43 kinds x 12 configurations, so Execute,
 // ExecuteContext(Background) and contexts that are cancelled / expire after
 // the call mix freely with runs that read standard input through every path,
 // end by exit N + a failing END, or start commands --, ResetVars, ResetRand)
@@ -90,6 +91,7 @@ func Record(seed int64, n int, out string) (int, error) {
 		os.Remove(w.wf)
 		emit(map[string]any{"ev": "reset"})
 		nops := 5 + r.Intn(8)
+		nruns := 0
 		for i := 0; i < nops; i++ {
 			switch k := r.Intn(10); {
 			case k == 0:
@@ -103,6 +105,12 @@ func Record(seed int64, n int, out string) (int, error) {
 				if r.Intn(3) == 0 {
 					kind = newKinds[r.Intn(len(newKinds))]
 				}
+				// (exit at the very limit of nested calls is followed by an END block that calls a function: on a
+				// tree where that goes wrong it would go wrong on a NEW interpreter, which is not a verdict about reuse)
+				if kind == "dp_exit" && cfg == "c10" && nruns == 0 {
+					cfg = "c9"
+				}
+				nruns++
 				tag := 1 + i%9
 				res := s.run(kind, cfg, tag, w)
 				if res.Panic != nil {
